@@ -32,6 +32,12 @@ inductive Fault where
 def Fault.name : Fault → String
   | .index => "index" | .strOffset => "str-offset" | .nullDeref => "null" | .outOfFuel => "fuel"
 
+/-- the fault of an outcome, if it is one (decidable whatever the result type is) -/
+def faultOf {α : Type} (r : Except Fault α) : Option Fault :=
+  match r with
+  | .error e => some e
+  | .ok _ => none
+
 /-! ### `Memory` as the readers see it: the `write8` calls in order plus `low_address` / `high_address` -/
 
 structure Mem where
